@@ -113,6 +113,14 @@ def eval_shape(kind, shape):
     sts = [s.get("Status") for _, s in rs]
     if want is not None and want not in sts:
         bad.append((f"{shape}-status", f"{kind}/{shape}: response statuses {[hex(x or 0) for x in sts]}, documented 0x{want:04X}"))
+    # the failure response that stands for the handler's exception / malformed result carries no data of
+    # an earlier match: a C-FIND response has an Identifier only while Pending
+    if kind == "find":
+        for _, s in rs:
+            st = s.get("Status")
+            ident = s.get("Identifier")
+            if st is not None and st not in (0xFF00, 0xFF01) and ident and ident[0] == "bytes" and ident[1]:
+                bad.append((f"{shape}-stale-identifier", f"{kind}/{shape}: the response with status 0x{st:04X} carries a {len(ident[1])}-byte Identifier (that of an earlier match)"))
     return bad
 
 
